@@ -71,6 +71,9 @@ fn run_case(syms: &[Sym], wset: usize, vlen: usize, rep: &Report, st: &Stats) {
         }
         Ok(g) => g,
     };
+    if rep.evaluations.load(Ordering::Relaxed) % 16 == 0 {
+        rep.outcome(hash_f64s(&got.iter().flatten().cloned().collect::<Vec<f64>>()));
+    }
     let want = mlpg_reference(&states, &durations, &wins, vlen);
     let total: usize = durations.iter().sum();
     if got.len() != total || got.iter().any(|f| f.len() != vlen) {
